@@ -492,7 +492,7 @@ def to_str(I, x):
         return str(x)
     if is_z3(x) and x.sort() == INT:
         # str(int): A3 (injective decimal rendering)
-        return z3.If(x >= 0, z3.IntToStr(x), z3.Concat(z3.StringVal("-"), z3.IntToStr(-x)))
+        return core.S_ITOS(x)
     if x is None:
         return "None"
     return Opaque("str(%s)" % type(x).__name__)
@@ -508,14 +508,17 @@ def str_concat(I, parts):
         if isinstance(p, str):
             if p == "":
                 continue
-            zs.append(z3.StringVal(p))
+            zs.append(core.str_lit(p))
         else:
             zs.append(p)
     if not zs:
         return ""
     if len(zs) == 1:
         return zs[0]
-    return z3.Concat(*zs)
+    r = zs[0]
+    for z in zs[1:]:
+        r = core.S_CAT(r, z)
+    return r
 
 
 def str_format(I, fmt, args):
@@ -742,7 +745,7 @@ def contains(I, container, x):
     if isinstance(container, str) and isinstance(x, str):
         return x in container
     if is_str(container) and is_str(x):
-        return simp_bool(z3.Contains(to_z3(container), to_z3(x)))
+        return simp_bool(core.S_CONTAINS(to_z3(container), to_z3(x)))
     if isinstance(container, dict):
         if is_z3(x):
             return listops.member_of_items(I, list(container.keys()), x)
@@ -790,7 +793,7 @@ def make_builtins(I):
         if isinstance(v, NT):
             return len(v.vals)
         if is_z3(v) and v.sort() == STR:
-            return z3.Length(v)
+            return core.S_LEN(v)
         if isinstance(v, SObj):
             f = v.cls.lookup("__len__")
             if f is not None:
@@ -1135,8 +1138,9 @@ def make_builtins(I):
                 return r
         for o in seen:
             ctx.assume((I.rank_fn(o) == r) == (o == zs))
-            if z3.is_string_value(o) and z3.is_string_value(zs):
-                ctx.assume((I.rank_fn(o) < r) == z3.BoolVal(o.as_string() < zs.as_string()))
+            lo, lz = core.lit_value(o), core.lit_value(zs)
+            if lo is not None and lz is not None:
+                ctx.assume((I.rank_fn(o) < r) == z3.BoolVal(lo < lz))
         seen.append(zs)
         return r
     I.str_rank = str_rank
@@ -1261,15 +1265,14 @@ def str_method(I, s, name):
             x, a, b = args
             if isinstance(x, str) and isinstance(a, str) and isinstance(b, str):
                 return x.replace(a, b)
-            return z3.ReplaceAll(to_z3(x), to_z3(a), to_z3(b)) if hasattr(z3, "ReplaceAll") else \
-                I.replace_all_fn(to_z3(x), to_z3(a), to_z3(b))
+            return core.S_REPLACE(to_z3(x), to_z3(a), to_z3(b))
         return mk(f)
     if name in ("startswith", "endswith"):
         def f(I, args, kw):
             x, a = args
             if isinstance(x, str) and isinstance(a, str):
                 return getattr(x, name)(a)
-            return simp_bool(z3.PrefixOf(to_z3(a), to_z3(x)) if name == "startswith" else z3.SuffixOf(to_z3(a), to_z3(x)))
+            return simp_bool(core.S_PREFIX(to_z3(a), to_z3(x)) if name == "startswith" else core.S_SUFFIX(to_z3(a), to_z3(x)))
         return mk(f)
     if name in ("lower", "upper", "split", "splitlines", "rstrip", "lstrip", "index", "find", "rfind", "format",
                 "encode", "isdigit", "count"):
